@@ -1208,3 +1208,110 @@ def unrestored_fp_state(prog: Program) -> tuple[int, list[tuple[FuncInfo, ast.Ca
             out.append((f, changing[0], f"`{' '.join(src(changing[0]).split())[:60]}` changes numpy's process-wide floating-point error mode and nothing restores it in a `finally:`: after an "
                         "exception raised while the mode is changed, every later computation of the process runs under it (use `with np.errstate(...)`)"))
     return n, out
+
+
+# ---------------------------------------------------------------------------------------------- value memos
+def _closed_function(prog: Program, f: FuncInfo, depth: int = 0) -> bool:
+    """`f` computes its result from its arguments alone: a module-level function or staticmethod that reads no instance / module state that can change,
+    stores nothing outside its locals and draws nothing at random (repository callees must be closed too)."""
+    import builtins
+    if depth > 2 or f.self_name is not None:
+        return False
+    node = f.node
+    local = set(f.params) | set(f.kwonly) | {x.id for x in ast.walk(node) if isinstance(x, ast.Name) and isinstance(x.ctx, ast.Store)}
+    consts = prog.module_consts.get(f.module.name, {})
+    for x in ast.walk(node):
+        if isinstance(x, (ast.Global, ast.Nonlocal, ast.Yield, ast.YieldFrom)):
+            return False
+        if isinstance(x, (ast.Attribute, ast.Subscript)) and isinstance(x.ctx, ast.Store):
+            root = x.value
+            while isinstance(root, (ast.Attribute, ast.Subscript)):
+                root = root.value
+            if not (isinstance(root, ast.Name) and root.id in local and root.id not in f.params):
+                return False
+        if isinstance(x, ast.Name) and isinstance(x.ctx, ast.Load) and x.id not in local and x.id not in dir(builtins):
+            q = prog.qualify(f.module, x.id) or ""
+            if x.id in consts:
+                v = consts[x.id]
+                if isinstance(v, (ast.Dict, ast.List, ast.Set)) and not isinstance(v, ast.Tuple):
+                    return False    # mutable module-level container
+                continue
+            if not q:
+                return False
+        if isinstance(x, ast.Call):
+            d = dotted(x.func) or ""
+            q = prog.qualify(f.module, d) or ""
+            if "random" in q or q.startswith(("time.", "os.", "uuid.")):
+                return False
+            for t in prog.resolve_call(f, x):
+                if isinstance(t, FuncInfo) and t.qualname != f.qualname and not _closed_function(prog, t, depth + 1):
+                    return False
+    return True
+
+
+def is_pure_cached_function(prog: Program, f: FuncInfo) -> bool:
+    """An `lru_cache` / `cache` on `f` cannot be observed: `f` is closed (see above) and its cached result is never written to by a caller (callers copy it,
+    or only read it)."""
+    if not _closed_function(prog, f):
+        return False
+    for g, call in prog.callers_of(f):
+        par = getattr(call, "_parent", None)
+        # result used through a copy: fine.  Bound to a name: the name must not be written through.
+        if isinstance(par, ast.Attribute) and par.attr in ("copy", "dot", "shape", "T", "sum", "mean"):
+            continue
+        if isinstance(par, ast.Return):
+            # handed on: the callers of g are checked the same way, one level
+            for g2, c2 in prog.callers_of(g):
+                p2 = getattr(c2, "_parent", None)
+                if isinstance(p2, (ast.Assign, ast.AnnAssign)):
+                    tg = p2.targets[0] if isinstance(p2, ast.Assign) else p2.target
+                    if isinstance(tg, ast.Name) and _written_through(g2, tg.id):
+                        return False
+            continue
+        if isinstance(par, (ast.Assign, ast.AnnAssign)):
+            tg = par.targets[0] if isinstance(par, ast.Assign) else par.target
+            if isinstance(tg, ast.Name):
+                if _written_through(g, tg.id):
+                    return False
+                continue
+            return False
+    return True
+
+
+def _written_through(g: FuncInfo, name: str) -> bool:
+    for x in ast.walk(g.node):
+        if isinstance(x, (ast.Subscript, ast.Attribute)) and isinstance(x.ctx, (ast.Store, ast.Del)):
+            root = x.value
+            while isinstance(root, (ast.Subscript, ast.Attribute)):
+                root = root.value
+            if isinstance(root, ast.Name) and root.id == name:
+                return True
+        if isinstance(x, ast.AugAssign) and isinstance(x.target, ast.Name) and x.target.id == name:
+            return True
+        if isinstance(x, ast.Call) and isinstance(x.func, ast.Attribute) and isinstance(x.func.value, ast.Name) and x.func.value.id == name \
+                and x.func.attr in ("sort", "fill", "resize", "put", "itemset", "setflags", "setdiag", "append", "extend", "update", "clear", "pop"):
+            if x.func.attr == "setflags" and any(k.arg == "write" and isinstance(k.value, ast.Constant) and k.value.value is False for k in x.keywords):
+                continue
+            return True
+    return False
+
+
+def is_value_memo_store(prog: Program, f: FuncInfo, stmt: ast.stmt, cache: str) -> bool:
+    """`CACHE[K] = V` where everything V was computed from is what K is made of (and constants): the entry is a function of its key, so whether it was
+    computed now, earlier in the process or in an earlier process makes no difference to what is read back."""
+    if not isinstance(stmt, ast.Assign):
+        return False
+    subs = [t for t in stmt.targets if isinstance(t, ast.Subscript) and isinstance(t.value, ast.Name) and t.value.id == cache]
+    if len(subs) != 1:
+        return False
+    kl = {x for x in dep_leaves(prog, f, subs[0].slice) if not x.startswith("call:")}
+    vl = dep_leaves(prog, f, stmt.value)
+    if any(x.startswith("self.") or (f.self_name and x.startswith(f.self_name + ".")) for x in vl):
+        return False
+    for x in vl:
+        if x.startswith("call:"):
+            q = prog.qualify(f.module, x[5:]) or x[5:]
+            if "random" in q or q.startswith(("time.", "os.", "uuid.")):
+                return False
+    data = {x for x in vl if not x.startswith("call:")}
+    return bool(kl) and data <= kl
